@@ -308,10 +308,10 @@ SUBS = [
     Sub(name='random-long', kind='hyp', run=run, strategy=lambda tier: histories(tier=tier),
         rule='1-6 atoms x 2-200 frames x <=8 sites, dwell-time parametrised; atoms that never move / never enter an inner site / only change inner state',
         n={'quick': 400, 'thorough': 8000}, shards={'quick': 4, 'thorough': 16}),
-    Sub(name='long-pipeline', kind='hyp', run=run_long_events, strategy=long_cases,
+    Sub(name='long-pipeline', kind='hyp', shrink=False, run=run_long_events, strategy=long_cases,
         rule='trajectories of 33 000 - 70 000 (140 000) frames through Trajectory.transitions_between_sites: planned (outer, inner) histories with dwell 1-9000 realised as coordinates; states, event table and previous/next views vs the models (index and time widths beyond 2^15 frames)',
         n={'quick': 2, 'thorough': 12}, shards={'quick': 6, 'thorough': 16}),
-    Sub(name='wide-long-pipeline', kind='hyp', run=run_long_events, strategy=wide_long_cases,
+    Sub(name='wide-long-pipeline', kind='hyp', shrink=False, run=run_long_events, strategy=wide_long_cases,
         rule='16-20 atoms x 70 000 - 110 000 (230 000) frames, i.e. 1.1 - 2.2 (4.6) million (frame, atom) entries, through transitions_between_sites: states, event table and previous/next views vs the models (code paths that depend on the array size)',
         n={'quick': 2, 'thorough': 3}, shards={'quick': 4, 'thorough': 16}),
 ]
